@@ -439,6 +439,10 @@ def degenerate_cases():
             }
             for name, ops in ctxs.items():
                 out.append(Case(ops + tail, {"kind": "degenerate", "ctx": name}))
+            # single-element calls on the empty string: nothing of it may stay behind for the next call
+            for step in (["skip", "all"], ["skip", "skip", "rem"], ["peek", "skip", "pop uint", "rem"], ["peek", "peek", f"pop {kind}", "peek", "all"],
+                         [f"pop {'bytes' if kind == 'text' else 'text'}", f"pop {kind}", "pop uint", "rem"], ["consume", "peek", "skip", "rem"]):
+                out.append(Case([e, "u 7", "enc", "load"] + step, {"kind": "degenerate", "ctx": "step"}))
     for ops in (["arr 0"], ["map 0"], ["arr 0", "map 0"], ["tag 0", "arr 0"], ["tag 0", "map 0"], ["arr 2", "arr 0", "map 0"],
                 ["map 1", "arr 0", "map 0"], ["indef_arr", "brk"], ["indef_map", "brk"], ["indef_bytes", "brk"], ["indef_text", "brk"],
                 ["indef_arr", "arr 0", "indef_map", "brk", "brk"], ["u 0"], ["n 0"], ["tag 0", "u 0"], ["f 0000000000000000"]):
@@ -557,6 +561,40 @@ def huge_cases(tier):
         for i, n in enumerate(pl):
             ops += [f"{'textr' if i % 2 else 'bytesr'} {0x30 + i:02x} {n}", "u 7", "enc"]
         out.append(Case(ops, {"kind": "huge"}))
+    return out
+
+
+def wide_cases(rng, counts):
+    """containers whose element COUNT crosses a head-width boundary and whose elements are all there: consume / decode must
+    take exactly n (2n) items - one too few or too many shows at the sentinel"""
+    out = []
+    for n in counts:
+        for kind in ("arr", "map", "indef_arr", "indef_map"):
+            k = n * (2 if "map" in kind else 1)
+            ops = [f"{kind} {n}" if not kind.startswith("indef") else kind]
+            for i in range(k):
+                ops.append(rng.choice([f"u {i % 24}", "null", f"text {0x61 + i % 26:02x}", "bool 1", f"n {i}", "bytes NULL", "arr 0"]))
+            if kind.startswith("indef"):
+                ops.append("brk")
+            ops = ([f"tag {rng.choice(TAG_VALUES)}"] if rng.random() < 0.3 else []) + ops
+            ops += ["u 7", "enc", "decode_all", "load", "consume", "rem", "consume", "rem", "consume"]
+            out.append(Case(ops, {"kind": "wide", "n": n}))
+    return out
+
+
+def tail_cases():
+    """an input longer than a few dozen bytes whose LAST element is an empty string / empty container / a one-byte item:
+    a decoder that needs 'one more byte' at the very end shows here; with skip / pop / consume taking that last element"""
+    out = []
+    for pad in (0, 30, 41, 64, 300, 1100):
+        for last in ("text NULL", "bytes -", "textr 00 0", "arr 0", "map 0", "null", "u 0", "brk", "indef_text", "text 61", "f 3ff8000000000000"):
+            for take in ("decode_all", "consume", "skip", "peek"):
+                ops = ([f"bytesr 2a {pad}"] if pad else []) + [last, "enc", "decode_all", "load"]
+                if pad:
+                    ops.append("consume")
+                ops += {"decode_all": ["all"], "consume": ["consume", "rem", "all"], "skip": ["skip", "rem", "all"],
+                        "peek": ["peek", "peek", "pop " + ("text" if last.startswith("text") else "bytes" if last.startswith("bytes") else "uint"), "rem", "all"]}[take]
+                out.append(Case(ops, {"kind": "tail"}))
     return out
 
 
@@ -687,8 +725,10 @@ def gen_cases(rng, tier):
     cases += growth_sweep_cases(512, small)
     if not q:
         cases += growth_sweep_cases(1000, [24, 256])
-    cases += big_edge_cases([65535, 65536] if q else [65534, 65535, 65536, 65537, 65538], [0, 1, 4, 5] if q else [-1, 0, 1, 2, 3, 4, 5, 6, 8, 9, 10])
+    cases += big_edge_cases([65535, 65536] if q else [65534, 65535, 65536, 65537, 65538], [-2, -1, 0, 1, 4, 5] if q else [-4, -3, -2, -1, 0, 1, 2, 3, 4, 5, 6, 8, 9, 10])
     cases += huge_cases(tier)
+    cases += wide_cases(rng, [22, 23, 24, 25, 255, 256, 257] if q else [22, 23, 24, 25, 254, 255, 256, 257, 1000, 4000])
+    cases += tail_cases()
     for _ in range(40 if q else 1500):
         cases.append(case_growth_edge(rng))
     for _ in range(3 if q else 40):
